@@ -32,14 +32,38 @@ from .yp_prolog_visitor import *
 from .yp_generator import *
 import contextlib
 import click
-from .errors import CompilerError
+from antlr4.error.ErrorListener import ErrorListener
+from .errors import CompilerError, PrologSyntaxError
+
+class _RaisingErrorListener(ErrorListener):
+    '''Turns the first lexer or parser error into an exception, instead of printing it
+    and letting ANTLR recover from it.'''
+
+    def __init__(self, filename):
+        super().__init__()
+        self.filename = filename
+
+    def syntaxError(self, recognizer, offendingSymbol, line, column, msg, e):
+        raise PrologSyntaxError(self.filename, line, column, msg)
 
 def _compile_prolog_from_stream(inp, ctx):
     '''compiles prolog source from an antlr4 stream.'''
+    filename = getattr(ctx, 'current_source_file', '')
+    error_listener = _RaisingErrorListener(filename)
     lexer = prologLexer(inp)
+    lexer.removeErrorListeners()
+    lexer.addErrorListener(error_listener)
     stream = CommonTokenStream(lexer)
     parser = prologParser(stream)
+    parser.removeErrorListeners()
+    parser.addErrorListener(error_listener)
     tree = parser.program()
+    # the grammar rule for a program does not require the end of the input, so the parser
+    # simply stops in front of anything that cannot start another clause
+    leftover = stream.LT(1)
+    if leftover.type != Token.EOF:
+        raise PrologSyntaxError(filename, leftover.line, leftover.column,
+                f"unexpected input '{leftover.text}' after the last clause")
     visitor = YPPrologVisitor(ctx)
     program = visitor.visit(tree)
     compiler = YPPrologCompiler(ctx)
